@@ -482,6 +482,11 @@ class Interp:
 
     def finish_class(self, cls, node=None):
         """__set_name__ protocol for members that define it."""
+        if any(isinstance(b, Ext) and b.path.startswith("enum.") for c in cls.mro for b in c.bases):
+            # enum members: one singleton object per name (identity comparisons work as in Python)
+            for k, v in list(cls.ns.items()):
+                if isinstance(k, str) and not k.startswith("_") and not isinstance(v, (FuncV, PropertyV, StaticV, ClassMethodV, BuiltinV)):
+                    cls.ns[k] = Obj(cls, {"name": k, "value": v, "_name_": k, "_value_": v}, label=f"{cls.name}.{k}")
         for k, v in list(cls.ns.items()):
             if isinstance(v, Obj):
                 c, f = v.cls.lookup("__set_name__")
@@ -835,6 +840,39 @@ class Interp:
             self.emit("loop_end", "for", node=s, extra="break" if broke else None)
         if not broke:
             self.exec_block(s.orelse, fr)
+
+    def x_Match(self, s, fr):
+        subj = self.eval(s.subject, fr)
+        for case in s.cases:
+            if self.match_pattern(case.pattern, subj, fr) and (case.guard is None or self.truth(self.eval(case.guard, fr), case.guard)):
+                self.exec_block(case.body, fr)
+                return
+
+    def match_pattern(self, pat, v, fr):
+        if isinstance(pat, ast.MatchValue):
+            return self.truth(self.equal(v, self.eval(pat.value, fr), pat), pat)
+        if isinstance(pat, ast.MatchSingleton):
+            return self.truth(self.identical(v, pat.value, pat), pat)
+        if isinstance(pat, ast.MatchAs):
+            if pat.pattern is not None and not self.match_pattern(pat.pattern, v, fr):
+                return False
+            if pat.name is not None:
+                self.store_name(pat.name, v, fr)
+            return True
+        if isinstance(pat, ast.MatchOr):
+            return any(self.match_pattern(p, v, fr) for p in pat.patterns)
+        if isinstance(pat, ast.MatchSequence):
+            if not isinstance(v, (tuple, ListV)):
+                return False
+            items = list(v) if isinstance(v, tuple) else v.items
+            if any(isinstance(p, ast.MatchStar) for p in pat.patterns) or len(items) != len(pat.patterns):
+                if not any(isinstance(p, ast.MatchStar) for p in pat.patterns):
+                    return False
+                self.unsupported("star pattern", pat)
+            return all(self.match_pattern(p, x, fr) for p, x in zip(pat.patterns, items))
+        if isinstance(pat, ast.MatchClass) and not pat.patterns and not pat.kwd_patterns:
+            return self.truth(self.models.isinstance_(self, v, self.eval(pat.cls, fr), pat), pat)
+        self.unsupported(f"match pattern {type(pat).__name__}", pat)
 
     def x_Delete(self, s, fr):
         self.unsupported("del", s)
